@@ -1,8 +1,10 @@
 package props
 
 import (
+	"context"
 	"fmt"
 	"math"
+	"path/filepath"
 
 	"verifmc/explore"
 	"verifmc/machine"
@@ -520,6 +522,67 @@ func c20WaveWriteCheck(lc *explore.Local, _ struct{}, c c20WaveWrite) *explore.F
 	return nil
 }
 
+// c20Wired: the emulator as gameboy.New wires it, with the (stub) speakers attached: a guest routes channel 1 to one
+// side only; what arrives at the speakers' Left() and Right() must be that side's mix and silence on the other side.
+type c20Wired struct {
+	NR51 uint8 `json:"nr51"`
+	NR50 uint8 `json:"nr50"`
+}
+
+func c20WiredCheck(c *Ctx) func(lc *explore.Local, _ struct{}, q c20Wired) *explore.Fail {
+	return func(lc *explore.Local, _ struct{}, q c20Wired) *explore.Fail {
+		img := machine.Program(map[uint16][]byte{0x100: {0xc3, 0x50, 0x01}, 0x150: {
+			0x3e, 0x80, 0xe0, 0x26, // NR52 = 80
+			0x3e, q.NR50, 0xe0, 0x24,
+			0x3e, q.NR51, 0xe0, 0x25,
+			0x3e, 0x80, 0xe0, 0x11, // duty 50%
+			0x3e, 0xf0, 0xe0, 0x12,
+			0x3e, 0x00, 0xe0, 0x13,
+			0x3e, 0x87, 0xe0, 0x14, // trigger, f = 700
+			0x18, 0xfe,
+		}})
+		rom := writeOnce(filepath.Join(c.Scratch, fmt.Sprintf("c20-wired-%02x-%02x.gb", q.NR51, q.NR50)), img)
+		g := newGB(rom, false, true, false)
+		ctx := context.Background()
+		var left, right []float32
+		for f := 0; f < 3; f++ {
+			g.frame(ctx)
+			for _, side := range []struct {
+				ch  chan float32
+				dst *[]float32
+			}{{g.spk.Left(), &left}, {g.spk.Right(), &right}} {
+				for drained := false; !drained; {
+					select {
+					case v := <-side.ch:
+						*side.dst = append(*side.dst, v)
+					default:
+						drained = true
+					}
+				}
+			}
+		}
+		loud := func(s []float32) bool {
+			for _, v := range s {
+				if v != 0 {
+					return true
+				}
+			}
+			return false
+		}
+		wantL, wantR := q.NR51&0x10 != 0, q.NR51&0x01 != 0 // master volumes are non-zero in every case (what volume 0 does is not in the statement)
+		if len(left) == 0 || len(left) != len(right) {
+			return explore.Failf("gameboy.New with speakers attached: sample counts", "NR51=%02x NR50=%02x: %d left, %d right samples in 3 frames", q.NR51, q.NR50, len(left), len(right))
+		}
+		if loud(left) != wantL || loud(right) != wantR {
+			return explore.Failf("gameboy.New with speakers attached: a side's samples are not that side's mix", "NR51=%02x NR50=%02x (channel 1 playing): left speaker carries sound: %v (want %v), right speaker carries sound: %v (want %v)", q.NR51, q.NR50, loud(left), wantL, loud(right), wantR)
+		}
+		lc.Eval(1)
+		lc.Trans(len(left))
+		lc.Outcome(uint64(q.NR51)<<8 | uint64(q.NR50))
+		return nil
+	}
+}
+
 func init() {
 	register("C20", "model_checking", func(c *Ctx) {
 		if c.R != nil {
@@ -617,6 +680,16 @@ func init() {
 					}
 				}
 			}, func() struct{} { return struct{}{} }, c20WaveWriteCheck)
+		explore.Product(c.R, "routing-through-the-real-constructor", explore.PartOpt{Workers: 4, Bound: "3 frames of the real runFrame per case", Domain: "gameboy.New with speakers attached; channel 1 routed left only, right only, both, neither x NR50 {77, 71, 17}"},
+			func(yield func(c20Wired) bool) {
+				for _, nr51 := range []uint8{0x10, 0x01, 0x11, 0x00, 0xee} {
+					for _, nr50 := range []uint8{0x77, 0x71, 0x17} {
+						if !yield(c20Wired{NR51: nr51, NR50: nr50}) {
+							return
+						}
+					}
+				}
+			}, func() struct{} { return struct{}{} }, c20WiredCheck(c))
 		long := 1_250_000
 		if c.Thorough() {
 			long = 5_600_000 // 255 envelope steps at the slowest period would still be in range
